@@ -3,6 +3,8 @@ EXTENDS Console, Json, IOUtils, TLC
 T == ndJsonDeserialize(IOEnv.TRACE)
 VARIABLES ti, prompted     \* prompted: the console has printed its first prompt (it does so when it first runs)
 NoSet == {}
+RingCap == 15        \* the console's input ring (16 bytes) holds 15 characters
+AtomQ == 8           \* slots of the scheduler's interrupt-safe run queue
 (* what the driver's capturing commands see of a dispatch: built-in commands and the unknown-command handler capture nothing *)
 IsBuiltin(nm) == \E i \in 1..Len(Builtins) : Builtins[i] = nm
 Captured(d) == IF d = <<>> \/ d[1].name = <<>> \/ IsBuiltin(d[1].name) THEN <<>> ELSE d
@@ -45,6 +47,15 @@ TraceNext ==
        [] ev.e = "Eval" ->                                   \* console_eval: executed once, and the injection completes
             LET f == Feed(line, ev.s, <<>>) IN
             /\ ev.done = 1 /\ SameDisp(ev.disp, f.disps) /\ ev.line = f.line /\ ev.calls = CallsOf(f.disps)
+            /\ prompted' = TRUE
+            /\ line' = f.line /\ disp' = <<>> /\ UNCHANGED <<table, regret, nchars>>
+       [] ev.e = "Flood" ->                                  \* a burst from the input interrupt with no scheduler pass in between: the ring
+            \* (RingCap characters) keeps what fits, drops the rest; every completed line in it runs, whatever else was pending
+            LET kept == SubSeq(ev.s, 1, IF Len(ev.s) < RingCap THEN Len(ev.s) ELSE RingCap)
+                woken == ev.pending < AtomQ                   \* the console's own wake-up found room: the first pass empties the ring
+                acc == IF woken \/ Len(ev.s) < RingCap THEN kept \o <<ev.key>> ELSE kept      \* else the key finds the ring still full
+                f == Feed(line, acc, <<>>) IN
+            /\ SameDisp(ev.disp, f.disps) /\ ev.line = f.line /\ ev.calls = CallsOf(f.disps)
             /\ prompted' = TRUE
             /\ line' = f.line /\ disp' = <<>> /\ UNCHANGED <<table, regret, nchars>>
        [] ev.e = "Two" ->                                    \* two consoles side by side: each is an instance of this machine of its own
